@@ -2,10 +2,16 @@ SPECIFICATION Spec
 CONSTANTS
   Energies <- QEnergies
   MaxLen = 5
+  MaxChanges = 5
   Tols <- QTols
+  FTols <- QTols
   Windows <- QWindows
   Targets <- QTargets
   Limits <- QLimits
+  Scales <- QScales
+  Exits <- QExits
+  EmitLens <- QLens
+  Extra <- QExtra
 INVARIANT WindowRespected
 INVARIANT VTRCOGisOr
 INVARIANT EmptyHistory
